@@ -223,7 +223,9 @@ def fillRect (h w : Int) (t l b r : Int) : List Pt × Bool :=
 
 /-- The border width `stroke_rect` uses: the requested width limited to the rect's width and
 height (and to 0 for inverted rects). -/
-def strokeWidth (t l b r sw : Int) : Int :=
+def strokeWidth (t l b r sw0 : Int) : Int :=
+  -- `width as i32`: a `u32` width of 2^31 or more wraps to a negative `i32`
+  let sw := (sw0 + 2147483648) % 4294967296 - 2147483648
   let a := if sw < r - l then sw else r - l
   let c := if a < b - t then a else b - t
   if c > 0 then c else 0
